@@ -104,7 +104,7 @@ CHECKS = {
             "depth 7/8 (thorough 9/10) of write/next/drain/open/close against VecDeque-with-eviction / Option. Plus: a model "
             "emitting 1..5 events through one output to two buffers, a slot and a second model, under every pick order: "
             "per-sender order and content of the sinks.", S_NOTE, "5/C17"),
-    "C20": ("seqx", "model_checking", "bounded-exhaustive operation sequences on the real priority queues vs sorted-vector reference (explicit enumeration, every trace replayed on the implementation)",
+    "C20": ("seqx+simx", "model_checking", "bounded-exhaustive operation sequences on the real priority queues vs sorted-vector reference (explicit enumeration, every trace replayed on the implementation)",
             "PriorityQueue: every sequence of insert(k in 0..2)/pull/peek to depth 9 (thorough 11). IndexedPriorityQueue: "
             "every sequence to depth 8 (thorough 9) of insert/pull/peek+peek_key/extract(any key issued so far, stale ones "
             "included)/extract(key forged from the slot of one issued key and the epoch of another)/extract(never-issued "
@@ -153,7 +153,7 @@ EXTRA = {
     "C11": " Also: the fault sequences in a simulation built on a thread on which an earlier simulation was terminated by a panic / NoRecipient, including a simulation without any model. On the multi-threaded executor, handlers of the failed step still completing on other workers when the failing call returns are not counted as further attempts (DESIGN 6.2). Round-4 additions: NoRecipient through a UniRequestor; the fault sequences and init faults on the single-threaded executor with a step timeout configured (helper thread).",
     "C13": " Programs with two executor threads taking the scheduled task from the same slot (successive polls on different threads, ordered only by the task's state word).",
     "C16": " Engine M: four of the init hierarchies on the real 2/3-worker executor under every schedule within the preemption bound (a worker going idle at the wrong moment must not leave init unfinished). Also the naming scenarios on the single-threaded executor with a step timeout configured (helper thread). On the real 2- and 4-worker executor: a hub whose init wakes 700 / 1500 idle models at once while the other workers are kept busy (every init exactly once, every early message processed, no model abandoned).",
-    "C20": " Long deterministic regimes for the indexed queue: fill / drain / refill with stale keys for sizes 1..40 and 2^k-1, 2^k, 2^k+1 up to 4097; churn with many different keys at 70-2100 entries; a sliding window (every pull followed by the insertion of a largest entry) at 5-2051 entries; heaps shaped by array position so that the path of smallest children ends at a chosen node, for sizes around 512, 1024 and 2048.",
+    "C20": " Engine S: the same-origin ordering families of C07 (driver origin, model origin with tick handlers scheduling for the next occurrence, absolute and relative deadlines at extreme start times): FIFO among equal (time, origin) keys as the simulation uses the queue. Long deterministic regimes for the indexed queue: fill / drain / refill with stale keys for sizes 1..40 and 2^k-1, 2^k, 2^k+1 up to 4097; churn with many different keys at 70-2100 entries; a sliding window (every pull followed by the insertion of a largest entry) at 5-2051 entries; heaps shaped by array position so that the path of smallest children ends at a chosen node, for sizes around 512, 1024 and 2048.",
     "C12": " Engine L: the real queue under loom (2 producers + consumer, capacities 1-2, close while pushing): no lost, "
            "duplicated or torn message, per-producer FIFO. Engine M: the real Sender/Receiver (async-event + diatomic-waker) "
            "under the preemption-bounded DFS: 1-3 producer threads x 1-3 messages on capacity 1-2 (senders do block), "
